@@ -2,7 +2,7 @@ SPECIFICATION Spec
 CONSTANTS
     Callers = {"rej401", "rej503", "rej500", "anon", "unauth_a", "auth_blank", "other", "a_variant", "a", "b"}
     Creds = {"opaque", "opaque_x", "opaque_4096", "opaque_4097", "opaque_mb", "jws3", "jws_sig_empty", "jws_4096", "jws_4097", "jws_escaped", "jws_upperkey", "seg2", "seg4", "seg5", "seg_e1", "seg_e2", "seg_pad", "seg_std", "seg_nl", "tok_empty", "tok_absent", "tok_null", "tok_nested", "tok_number", "upperkey", "dup_real_last", "dup_jws_last", "not_json", "empty_body", "json_array", "json_null", "json_trailing", "body_at_cap", "body_over_cap", "cl_unknown", "cl_unknown_at", "cl_unknown_over", "cl_under_over", "cl_over_small", "cl_cap_small", "body_err"}
-    Outcomes = {"hit0", "hit60", "hitneg", "miss", "miss_id", "unavail", "unavail9", "wrapped7", "plain", "hit_err"}
+    Outcomes = {"hit0", "hit60", "miss", "unavail9", "plain"}
     AuthFn = {TRUE, FALSE}
     RateCfg = 2
     DefTTLCfg = 0
